@@ -266,6 +266,19 @@ def template_cases(R, r):
     want = "".join(expected) + tail
     args = ", ".join(S(v, r) if isinstance(v, str) else (gv.dec_literal(v) if isinstance(v, float) else "(%d)" % v) for v in vals)
     R.expect("sprintf(%s, %s)" % (S(template, r), args), want, "sprintf:template", ("sprintf", template, tuple(map(str, vals))))
+    # many positional arguments (two-digit placeholder numbers)
+    if r.random() < 0.3:
+        nargs = r.randint(11, 14)
+        vals2 = [r.choice([7, 12, "abc", "x y", 2.5, 0, "{1}", 255]) for _ in range(nargs)]
+        order = [r.randrange(nargs) for _ in range(r.randint(3, 8))] + [10, nargs - 1, 1, 0]
+        r.shuffle(order)
+        parts, wantp = [], []
+        for j2 in order:
+            sp = gen_spec(r, vals2[j2])
+            parts.append("{" + str(j2) + spec_text(sp) + "};")
+            wantp.append(apply_spec(fmt_value(vals2[j2]), sp) + ";")
+        args2 = ", ".join(S(v, r) if isinstance(v, str) else (gv.dec_literal(v) if isinstance(v, float) else "(%d)" % v) for v in vals2)
+        R.expect("sprintf(%s, %s)" % (S("".join(parts), r), args2), "".join(wantp), "sprintf:many-arguments", ("sprintf-many", "".join(parts), tuple(map(str, vals2))))
     # placeholders whose expression interpolates itself (a function that formats with s / sprintf): the outer
     # placeholder's own format applies to what the inner call returned
     j, k2 = r.randrange(len(names)), r.randrange(len(names))
@@ -293,6 +306,13 @@ def run_shard(spec, ctx):
             s = gen_str(r)
             t = gen_str(r, 3) if r.random() < 0.6 else (s[r.randrange(len(s)):][:r.randint(1, 3)] if s else "")
             sep = r.choice(SEPS)
+            if i % 40 == 11:
+                # long subjects (beyond any chunk size) with runs of self-overlapping search strings
+                unit = r.choice(["a", "ab", " ", "aba", "x,"])
+                t = r.choice([unit * 2, unit, unit * 2 + unit[:1]])
+                n_ = r.choice([100, 127, 128, 129, 200, 257, 600])
+                s = "".join(r.choice([unit, unit, unit * r.randint(2, 5), "x", "y" * r.randint(1, 3), sep]) for _ in range(n_))[:r.choice([130, 260, 520, 1100])]
+                R.ctx.count("long_subjects")
             law_cases(R, r, s, t, sep, hist=(i % 4 == 3))
         ctx.sample({"law": "join(split(s, escape_pattern(sep)), sep) == s", "s": "a.b*c", "sep": "*"})
     elif spec["kind"] == "templates":
@@ -323,6 +343,8 @@ def run_shard(spec, ctx):
 def finalize(merged, tier):
     c = merged["counters"]
     reasons = []
+    if c.get("long_subjects", 0) == 0:
+        reasons.append("no long subjects")
     if c.get("evaluations", 0) == 0 or c.get("evaluations_on_edited_strings", 0) == 0:
         reasons.append("no evaluations (or none on edited strings)")
     if not any(ex.get("fixed_done") for spec, ex in merged["shard_docs"]):
